@@ -2,25 +2,25 @@
    repeated or reordered — as long as their dispatch (Div / P / Span / Br / Text; region -> body -> div -> p for WebVTT)
    meets no element that it has no case for and that holds text (the executable predicates `srt_block_ok`,
    `vtt_region_ok`; their negations are the triggers of the recorded findings writers-skip-ruby and vtt-nested-div-lost).
-   Characters are compared through `vis`: the characters that are not white space (str.isspace). *)
+   Characters are compared through `visc`: the characters that are not white space (str.isspace). *)
 From TT Require Import Model.Doc Gen.StyleTables Model.Isd Model.SigTimes Model.TimeCode Model.IsdFilters Gen.CueTables Model.CueWriter.
 From TT Require Import Model.CueTriggers Spec.IsdSpec Proofs.Common.ElemInd Proofs.C01.Lwsp Proofs.C06.Filters.
 
 Definition visible (c : Z) : bool := negb (py_isspace c).
-Definition vis (t : text) : text := filter visible t.
+Definition visc (t : text) : text := filter visible t.
 
-Lemma vis_app a b : vis (a ++ b) = vis a ++ vis b.
+Lemma visc_app a b : visc (a ++ b) = visc a ++ visc b.
 Proof. apply filter_app. Qed.
-Lemma vis_flat_map {A} (f : A -> text) l : vis (flat_map f l) = flat_map (fun x => vis (f x)) l.
-Proof. induction l as [|x l IH]; [reflexivity|]. cbn [flat_map]. rewrite vis_app, IH. reflexivity. Qed.
+Lemma visc_flat_map {A} (f : A -> text) l : visc (flat_map f l) = flat_map (fun x => visc (f x)) l.
+Proof. induction l as [|x l IH]; [reflexivity|]. cbn [flat_map]. rewrite visc_app, IH. reflexivity. Qed.
 
 Lemma space_is_pyspace c : is_space c = true -> py_isspace c = true.
 Proof.
   unfold is_space. intros H. repeat (apply orb_true_iff in H as [H|H]); apply Z.eqb_eq in H; subst c; reflexivity.
 Qed.
-Lemma vis_nonspace t : vis (nonspace t) = vis t.
+Lemma visc_nonspace t : visc (nonspace t) = visc t.
 Proof.
-  induction t as [|c t IH]; [reflexivity|]. unfold nonspace, vis in *. cbn [filter].
+  induction t as [|c t IH]; [reflexivity|]. unfold nonspace, visc in *. cbn [filter].
   destruct (is_space c) eqn:E; cbn [negb].
   - unfold visible at 2. rewrite (space_is_pyspace c E). cbn [negb]. exact IH.
   - cbn [filter]. destruct (visible c); [f_equal|]; exact IH.
@@ -98,15 +98,15 @@ Proof.
   - (* text *) apply chars_of_chr.
 Qed.
 
-Theorem srt_inline_text fmt : forall e, inline_ok e = true -> vis (chars_of (srt_inline fmt e)) = vis (leaves_text e).
+Theorem srt_inline_text fmt : forall e, inline_ok e = true -> visc (chars_of (srt_inline fmt e)) = visc (leaves_text e).
 Proof.
   induction e as [a cs IH] using elem_ind2. intros H. rewrite srt_inline_node, leaves_text_node. rewrite inline_ok_node in H.
   destruct (e_kind a) eqn:Ek.
   all: try (rewrite leaves_text_node, Ek in H; rewrite (is_nil_eq _ H); reflexivity).
-  - (* span *) rewrite !vis_flat_map. apply flat_map_ext_in. intros c Hc. rewrite Forall_forall in IH. apply IH; [exact Hc|].
+  - (* span *) rewrite !visc_flat_map. apply flat_map_ext_in. intros c Hc. rewrite Forall_forall in IH. apply IH; [exact Hc|].
     rewrite forallb_forall in H. apply H, Hc.
   - (* br *) reflexivity.
-  - (* text *) symmetry. apply vis_nonspace.
+  - (* text *) symmetry. apply visc_nonspace.
 Qed.
 
 (* the WebVTT inline output has the same characters, whatever the CSS class registry holds *)
@@ -143,10 +143,10 @@ Proof.
       (is_element_underlined a); cbn [chars_of flat_map app]; rewrite ?app_nil_r; reflexivity.
   - (* text *) cbn [fst]. apply chars_of_chr.
 Qed.
-Corollary vtt_inlines_text l s : forallb inline_ok l = true -> vis (chars_of (fst (vtt_inlines l s))) = vis (flat_map leaves_text l).
+Corollary vtt_inlines_text l s : forallb inline_ok l = true -> visc (chars_of (fst (vtt_inlines l s))) = visc (flat_map leaves_text l).
 Proof.
   intros H. rewrite vtt_inlines_chars by (intros c _ s'; apply vtt_inline_chars).
-  rewrite !vis_flat_map. apply flat_map_ext_in. intros c Hc. apply srt_inline_text. rewrite forallb_forall in H. apply H, Hc.
+  rewrite !visc_flat_map. apply flat_map_ext_in. intros c Hc. apply srt_inline_text. rewrite forallb_forall in H. apply H, Hc.
 Qed.
 
 (* ---- white-space-only paragraphs show nothing ------------------------------------------------------------------------ *)
@@ -182,12 +182,12 @@ Proof.
   intros c H. unfold esc_vtt in H. destruct (c =? 38) eqn:E1; [discriminate H|]. destruct (c =? 60) eqn:E2; [discriminate H|].
   unfold only_whitespace in H. cbn [forallb] in H. rewrite andb_true_r in H. exact H.
 Qed.
-Lemma blank_flat esc items : esc_keeps esc -> only_whitespace (flat esc items) = true -> vis (chars_of items) = [].
+Lemma blank_flat esc items : esc_keeps esc -> only_whitespace (flat esc items) = true -> visc (chars_of items) = [].
 Proof.
   intros He. induction items as [|[t|c] items IH]; intros H; [reflexivity | |];
     unfold flat in H; cbn [flat_map] in H; unfold only_whitespace in H; rewrite forallb_app in H; apply andb_true_iff in H as [H1 H2].
   - apply IH, H2.
-  - cbn [chars_of flat_map app]. unfold vis. cbn [filter]. unfold visible at 1. rewrite (He c H1). cbn [negb]. apply IH, H2.
+  - cbn [chars_of flat_map app]. unfold visc. cbn [filter]. unfold visible at 1. rewrite (He c H1). cbn [negb]. apply IH, H2.
 Qed.
-Lemma blank_cue esc c : esc_keeps esc -> only_whitespace (cue_text esc c) = true -> vis (cue_chars c) = [].
+Lemma blank_cue esc c : esc_keeps esc -> only_whitespace (cue_text esc c) = true -> visc (cue_chars c) = [].
 Proof. intros He H. unfold cue_text in H. rewrite normalize_eol_ws in H. apply (blank_flat esc _ He H). Qed.
